@@ -1,0 +1,137 @@
+//! The SOCKS5 client dialogue over any transport, and the derivation of SOCKS credentials.
+
+use super::session::AuthView;
+use crate::socks5_client::{self, Address, Authentication, ConnectResult, ExtendedAuthenticationValue, Request};
+use crate::socks5_forwarder;
+use std::net::{IpAddr, SocketAddr};
+use tokio::io::{AsyncRead, AsyncWrite};
+
+#[derive(Debug, Clone, PartialEq, Eq)]
+pub enum ExtValueView {
+    Domain(String),
+    ClientAddress(IpAddr),
+    UserAgent(String),
+    BasicProxyAuth(String),
+    SniAuth,
+}
+
+#[derive(Debug, Clone, PartialEq, Eq)]
+pub enum SocksAuthView {
+    UsernamePassword(String, String),
+    Extended(Vec<ExtValueView>),
+}
+
+#[derive(Debug, Clone, PartialEq, Eq)]
+pub enum SocksAddrView {
+    Ip(IpAddr),
+    Domain(String),
+}
+
+#[derive(Debug, Clone, PartialEq, Eq)]
+pub enum SocksRequestView {
+    Connect(SocksAddrView, u16),
+    UdpAssociate,
+}
+
+impl From<&Authentication<'_>> for SocksAuthView {
+    fn from(a: &Authentication<'_>) -> Self {
+        match a {
+            Authentication::UsernamePassword(u, p) => {
+                SocksAuthView::UsernamePassword(u.to_string(), p.to_string())
+            }
+            Authentication::Extended(v) => SocksAuthView::Extended(
+                v.iter()
+                    .map(|x| match x {
+                        ExtendedAuthenticationValue::Domain(x) => ExtValueView::Domain(x.to_string()),
+                        ExtendedAuthenticationValue::ClientAddress(x) => ExtValueView::ClientAddress(*x),
+                        ExtendedAuthenticationValue::UserAgent(x) => ExtValueView::UserAgent(x.to_string()),
+                        ExtendedAuthenticationValue::BasicProxyAuth(x) => {
+                            ExtValueView::BasicProxyAuth(x.to_string())
+                        }
+                        ExtendedAuthenticationValue::SniAuth => ExtValueView::SniAuth,
+                    })
+                    .collect(),
+            ),
+        }
+    }
+}
+
+fn auth_in(a: SocksAuthView) -> Authentication<'static> {
+    match a {
+        SocksAuthView::UsernamePassword(u, p) => Authentication::UsernamePassword(u.into(), p.into()),
+        SocksAuthView::Extended(v) => Authentication::Extended(
+            v.into_iter()
+                .map(|x| match x {
+                    ExtValueView::Domain(x) => ExtendedAuthenticationValue::Domain(x.into()),
+                    ExtValueView::ClientAddress(x) => ExtendedAuthenticationValue::ClientAddress(x),
+                    ExtValueView::UserAgent(x) => ExtendedAuthenticationValue::UserAgent(x.into()),
+                    ExtValueView::BasicProxyAuth(x) => ExtendedAuthenticationValue::BasicProxyAuth(x.into()),
+                    ExtValueView::SniAuth => ExtendedAuthenticationValue::SniAuth,
+                })
+                .collect(),
+        ),
+    }
+}
+
+/// The real `make_auth` / `make_extended_auth` of the SOCKS5 forwarder.
+/// `extended` = (TLS domain, client address, user agent) when extended authentication is on.
+pub fn make_auth(
+    source: AuthView,
+    extended: Option<(String, IpAddr, Option<String>)>,
+) -> Result<SocksAuthView, String> {
+    let source: crate::authentication::Source<'static> = source.into();
+    match &extended {
+        None => socks5_forwarder::verif_make_auth(source).map(|a| (&a).into()),
+        Some((domain, addr, ua)) => {
+            socks5_forwarder::verif_make_extended_auth(source, domain, addr, ua.as_deref())
+                .map(|a| (&a).into())
+        }
+    }
+}
+
+/// A UDP association established through the dialogue
+pub struct SocksUdpDoor<IO>(socks5_client::UdpAssociation<IO>);
+
+impl<IO> SocksUdpDoor<IO> {
+    pub fn local_addr(&self) -> std::io::Result<SocketAddr> {
+        self.0.get_ref().local_addr()
+    }
+    pub async fn send_to(&self, data: &[u8], destination: SocketAddr) -> Result<(), String> {
+        self.0.send_to(data, destination).await.map_err(|e| format!("{:?}", e))
+    }
+    pub async fn recv_from(&self, data: &mut [u8]) -> Result<(usize, SocketAddr), String> {
+        self.0.recv_from(data).await.map_err(|e| format!("{:?}", e))
+    }
+}
+
+pub enum SocksOutcome<IO> {
+    Tcp(IO),
+    Udp(SocksUdpDoor<IO>),
+    /// the server replied with this non-success reply code (as decoded by the client)
+    Failure(String),
+    ErrIo(std::io::ErrorKind),
+    ErrProtocol(String),
+    ErrAuthentication(String),
+}
+
+/// The real [`socks5_client::connect`]
+pub async fn connect<IO>(io: IO, auth: Option<SocksAuthView>, request: SocksRequestView) -> SocksOutcome<IO>
+where
+    IO: AsyncRead + AsyncWrite + Send + Unpin,
+{
+    let request = match request {
+        SocksRequestView::Connect(SocksAddrView::Ip(ip), port) => Request::Connect(Address::IpAddress(ip), port),
+        SocksRequestView::Connect(SocksAddrView::Domain(d), port) => {
+            Request::Connect(Address::DomainName(d.into()), port)
+        }
+        SocksRequestView::UdpAssociate => Request::UdpAssociate,
+    };
+    match socks5_client::connect(io, auth.map(auth_in), request).await {
+        Ok(ConnectResult::TcpConnection(io)) => SocksOutcome::Tcp(io),
+        Ok(ConnectResult::UdpAssociation(a)) => SocksOutcome::Udp(SocksUdpDoor(a)),
+        Ok(ConnectResult::Failure(code)) => SocksOutcome::Failure(format!("{:?}", code)),
+        Err(socks5_client::Error::Io(e)) => SocksOutcome::ErrIo(e.kind()),
+        Err(socks5_client::Error::Protocol(e)) => SocksOutcome::ErrProtocol(e),
+        Err(socks5_client::Error::Authentication(e)) => SocksOutcome::ErrAuthentication(e),
+    }
+}
